@@ -534,6 +534,17 @@ fn check_acceptance<T: HLabel>(env: &mut Env, built: &Built<T>, rng: &mut Rng) {
         let encs = usable_encoders(env.ctx, env.exp_cost, t);
         let has = env.oracle.has_ext(t.sem);
         for (ei, enc) in encs.iter().enumerate() {
+            // on every other framework one solver object answers the queries about all arguments in
+            // turn (what a library user does); on the others each query gets a fresh object
+            let reuse = env.focus.is_none() && (abs.n + abs.att.len()) % 2 == 0;
+            let mut shared: Option<(StaticSolver<T>, monitor::MonHandle)> = None;
+            if reuse {
+                let h = monitor::new_handle();
+                let fac = monitor::monitored_factory(Backend::Cadical, h.clone());
+                if let Ok(s) = crate::report::catch(|| StaticSolver::new(&built.af, t.ty, *enc, fac)) {
+                    shared = Some((s, h));
+                }
+            }
             for (ai, a) in args.iter().enumerate() {
                 // on big inputs spread encoders over arguments instead of the full product
                 if big && encs.len() > 1 && (ai + ei) % encs.len() != 0 {
@@ -547,7 +558,22 @@ fn check_acceptance<T: HLabel>(env: &mut Env, built: &Built<T>, rng: &mut Rng) {
                 env.ctx.eval();
                 env.ctx.count(&format!("queries/{}", t.problem()));
                 env.ctx.count(&format!("configurations/{}", enc.name()));
-                let (r, h) = run_one(built, t, *enc, &q, cap);
+                let (r, h) = match shared.as_mut() {
+                    Some((s, h)) => {
+                        {
+                            let mut st = h.borrow_mut();
+                            st.reset_for_query();
+                            st.cap = Some(cap);
+                        }
+                        env.ctx.count("queries/on-a-reused-solver-object");
+                        (ask(built, s, &q), h.clone())
+                    }
+                    None => run_one(built, t, *enc, &q, cap),
+                };
+                if r.is_err() {
+                    // the object may be poisoned by the unwinding: the remaining queries get fresh ones
+                    shared = None;
+                }
                 if note_monitor(env, &h, t, *enc, &q) {
                     continue;
                 }
@@ -701,8 +727,19 @@ fn check_c07<T: HLabel>(env: &mut Env, built: &Built<T>, rng: &mut Rng) {
             continue;
         }
         let encs = usable_encoders(env.ctx, env.exp_cost, t);
+        // on every other framework all lists are put, in turn, to one solver object (one encoder)
+        let reuse = env.focus.is_none() && (abs.n + abs.att.len()) % 2 == 1;
+        let shared_enc = encs[rng.below(encs.len())];
+        let mut shared: Option<(StaticSolver<T>, monitor::MonHandle)> = None;
+        if reuse {
+            let h = monitor::new_handle();
+            let fac = monitor::monitored_factory(Backend::Cadical, h.clone());
+            if let Ok(s) = crate::report::catch(|| StaticSolver::new(&built.af, t.ty, shared_enc, fac)) {
+                shared = Some((s, h));
+            }
+        }
         for l in lists.iter() {
-            let enc = encs[rng.below(encs.len())];
+            let enc = if shared.is_some() { shared_enc } else { encs[rng.below(encs.len())] };
             let class = list_class(&abs, &comp_of, l);
             let exp = expected_status(env.oracle, t, l);
             let mut statuses: [Option<bool>; 2] = [None, None];
@@ -715,7 +752,21 @@ fn check_c07<T: HLabel>(env: &mut Env, built: &Built<T>, rng: &mut Rng) {
                 env.ctx.eval();
                 env.ctx.count(&format!("lists/{}", class));
                 env.ctx.count(&format!("configurations/{}", enc.name()));
-                let (r, h) = run_one(built, t, enc, &q, cap);
+                let (r, h) = match shared.as_mut() {
+                    Some((s, h)) => {
+                        {
+                            let mut st = h.borrow_mut();
+                            st.reset_for_query();
+                            st.cap = Some(cap);
+                        }
+                        env.ctx.count("queries/on-a-reused-solver-object");
+                        (ask(built, s, &q), h.clone())
+                    }
+                    None => run_one(built, t, enc, &q, cap),
+                };
+                if r.is_err() {
+                    shared = None;
+                }
                 if note_monitor(env, &h, t, enc, &q) {
                     continue;
                 }
